@@ -456,8 +456,15 @@ func solve(o *Obligation, timeout time.Duration, portfolio []string) {
 		// on which 5.1.0 wanders (and the other way round for wrap-around goals)
 		racers = append(racers, racer{"z3", 1})
 		if segments {
-			racers = append(racers, racer{"z3-new-q", 1})
+			// goals over byte segments are decided by the e-matching configuration or not at all in most cases: it goes
+			// first, and the others start only when it has not answered within two seconds (five more processes per
+			// obligation on a loaded machine slow everything down)
+			racers = append([]racer{{"z3-new-q", 1}}, racers...)
 		}
+	}
+	headStart := 250 * time.Millisecond
+	if segments {
+		headStart = 2 * time.Second
 	}
 	ctx, cancel := context.WithCancel(context.Background())
 	ch := make(chan res, len(racers))
@@ -469,7 +476,7 @@ func solve(o *Obligation, timeout time.Duration, portfolio []string) {
 				case <-ctx.Done():
 					ch <- res{rc.lvl, rc.solver, "cancelled", ""}
 					return
-				case <-time.After(250 * time.Millisecond):
+				case <-time.After(headStart):
 				}
 			}
 			r, out, _ := runSolverCtx(ctx, rc.solver, files[rc.lvl-1], timeout)
